@@ -300,8 +300,14 @@ func (u *Unmarshaler) fillSliceWithDefault(derefedType reflect.Type, value refle
 	defaultValue string) error {
 	baseFieldType := Deref(derefedType.Elem())
 	baseFieldKind := baseFieldType.Kind()
+	// 字符串元素按分段解析，其他元素按 JSON 解析，两种结果不能共用一个缓存项
+	cacheKey := defaultValue
+	if baseFieldKind == reflect.String {
+		cacheKey = "string:" + defaultValue
+	}
+
 	defaultCacheLock.Lock()
-	slice, ok := defaultCache[defaultValue]
+	slice, ok := defaultCache[cacheKey]
 	defaultCacheLock.Unlock()
 	if !ok {
 		if baseFieldKind == reflect.String {
@@ -311,7 +317,7 @@ func (u *Unmarshaler) fillSliceWithDefault(derefedType reflect.Type, value refle
 		}
 
 		defaultCacheLock.Lock()
-		defaultCache[defaultValue] = slice
+		defaultCache[cacheKey] = slice
 		defaultCacheLock.Unlock()
 	}
 
